@@ -102,7 +102,7 @@ def run(chk, which):
     for i, r in zip(same, observe.generate([srcs[i] for i in same], mixed=False)):
         results[i] = r
     if other:
-        # folder output: the item in crate cratex, the neighbours in crates that sort before / after it (Go has no folder mode)
+        # folder output: the item in crate cratex, the neighbours in crates that sort before / after it 
         extra = []
         for i in other:
             c = cases[i]
@@ -112,9 +112,9 @@ def run(chk, which):
             if c["after"] != "none":
                 fs.append({"src": MENU[c["after"]].format(N=AFTER), "crate": "zzz_other", "path": "zzz_other/src/lib.rs", "out": "zzz_other"})
             extra.append(fs)
-        langs_f = [l for l in common.LANGS if l != "go"]
+        langs_f = list(common.LANGS)
         for i, r in zip(other, observe.generate([srcs[i] for i in other], langs=langs_f, multi=True, extra_files=extra, mixed=False)):
-            results[i] = dict(r, go={"status": "skipped"})
+            results[i] = r
     alone = {}
     for c, per in zip(cases, results):
         if c["before"] == "none" and c["after"] == "none":
